@@ -67,6 +67,14 @@ struct Entry {
     /// errno the operation is to fail with instead of being carried out
     fail: Option<i32>,
     waker: Option<Waker>,
+    /// a write that `File::poll_write` has accepted and that is carried out "in the background"
+    /// when the simulator fires the gate (tokio::fs::File hands writes to its blocking pool and
+    /// reports their outcome at the next write or flush)
+    deferred: Option<std::sync::Arc<std::fs::File>>,
+    /// outcome of a deferred write that has been carried out (errno on failure)
+    outcome: Option<Result<(), i32>>,
+    /// the file was dropped before the outcome was collected
+    orphan: bool,
 }
 
 type ShortFn = Box<dyn FnMut(GateKind, usize) -> usize + Send>;
@@ -142,11 +150,34 @@ pub fn fire_fail(id: u64, errno: i32) -> bool {
 fn fire_with(id: u64, fail: Option<i32>) -> bool {
     let waker = {
         let mut t = table();
-        match t.entries.iter_mut().find(|e| e.id == id && !e.fired) {
-            Some(e) => {
+        let enabled = t.enabled;
+        match t.entries.iter().position(|e| e.id == id && !e.fired) {
+            Some(p) => {
+                let e = &mut t.entries[p];
                 e.fired = true;
                 e.fail = fail;
-                e.waker.take()
+                let w = e.waker.take();
+                if let Some(file) = e.deferred.clone() {
+                    // carry the accepted write out now
+                    let data = e.data.clone().unwrap_or_default();
+                    let path = e.path.clone();
+                    let outcome = match fail {
+                        Some(errno) => Err(errno),
+                        None => {
+                            use std::io::Write;
+                            (&*file).write_all(&data).map_err(|err| err.raw_os_error().unwrap_or(5))
+                        }
+                    };
+                    e.outcome = Some(outcome);
+                    let orphan = e.orphan;
+                    if enabled && fail.is_none() {
+                        t.oplog.push((GateKind::Write, path));
+                    }
+                    if orphan {
+                        t.entries.remove(p);
+                    }
+                }
+                w
             }
             None => return false,
         }
@@ -155,6 +186,77 @@ fn fire_with(id: u64, fail: Option<i32>) -> bool {
         w.wake();
     }
     true
+}
+
+/// `File::poll_write` hands an accepted write to the simulator: it is carried out when the gate
+/// is fired.  `None`: the seam is off, the caller writes inline.
+pub fn submit_write(path: &Path, file: std::sync::Arc<std::fs::File>, data: Vec<u8>) -> Option<u64> {
+    let mut t = table();
+    if !t.enabled {
+        return None;
+    }
+    let id = t.next_id;
+    t.next_id += 1;
+    t.gates_created += 1;
+    t.entries.push(Entry {
+        id,
+        kind: GateKind::Write,
+        path: path.to_path_buf(),
+        data: Some(data),
+        fired: false,
+        fail: None,
+        waker: None,
+        deferred: Some(file),
+        outcome: None,
+        orphan: false,
+    });
+    Some(id)
+}
+
+/// Outcome of a deferred write: pending until the simulator has fired its gate.
+pub fn poll_write_outcome(id: u64, cx: &mut Context<'_>) -> Poll<Result<(), i32>> {
+    let mut t = table();
+    match t.entries.iter().position(|e| e.id == id) {
+        Some(p) if t.entries[p].fired => {
+            let e = t.entries.remove(p);
+            Poll::Ready(e.outcome.unwrap_or(Ok(())))
+        }
+        Some(p) => {
+            t.entries[p].waker = Some(cx.waker().clone());
+            Poll::Pending
+        }
+        // table was reset under us (end of run)
+        None => Poll::Ready(Ok(())),
+    }
+}
+
+/// The file behind a deferred write was dropped: the write still happens when its gate fires.
+pub fn orphan_write(id: u64) {
+    let mut t = table();
+    if let Some(p) = t.entries.iter().position(|e| e.id == id) {
+        if t.entries[p].fired {
+            t.entries.remove(p);
+        } else {
+            t.entries[p].orphan = true;
+            t.entries[p].waker = None;
+        }
+    }
+}
+
+/// The process dies with a deferred write in flight: its first `n` bytes reach the file.
+pub fn land_prefix(id: u64, n: usize) -> bool {
+    let t = table();
+    match t.entries.iter().find(|e| e.id == id) {
+        Some(e) => match (&e.deferred, &e.data) {
+            (Some(file), Some(data)) => {
+                use std::io::Write;
+                let n = n.min(data.len());
+                (&**file).write_all(&data[..n]).is_ok()
+            }
+            _ => false,
+        },
+        None => false,
+    }
 }
 
 /// Install the decision function for short reads/writes: given the kind and the
@@ -231,6 +333,9 @@ impl Future for Gate {
                     fired: false,
                     fail: None,
                     waker: Some(cx.waker().clone()),
+                    deferred: None,
+                    outcome: None,
+                    orphan: false,
                 });
                 me.id = Some(id);
                 Poll::Pending
